@@ -7,7 +7,12 @@ a plain and with a *hostile* consumer (edits in place everything it receives bef
 next value). What leaves branch i (snapshot taken by a Tap at the end of the branch) must equal what
 the same branch yields when it is the only branch of a Split over a fresh equal flow (for Zip: when the
 other branches carry no mutators); no dict or list may be reachable from the outputs of two different
-branches.
+branches, and the values that leave one branch may have a mutable object in common only where they have
+it when the branch is alone. Two further dimensions: the flow's values are all different or all EQUAL
+(always made of their own objects), and the container is used as built or is a DEEP COPY, taken before
+any value, of a template that is driven next to it over an equal flow (what SplitIntoBins / MapBins do
+with their sequences): template and copy must each behave like a container built for the purpose and
+share nothing.
 
 Part B (accumulators, explicit-state exploration of event histories): every history over
 {fill a fresh value, compute/request, poison everything yielded so far} up to a bound is executed on
@@ -28,7 +33,8 @@ ID = "C04"
 LEVEL = "model_checking"
 DESIGN_REF = "DESIGN.md section 5, C04"
 RULE = ("Part A: one evaluation = one (container, drive mode, ordered branch list, bufsize, flow length, "
-        "consumer) executed on a fresh Split/Zip plus the cached single-branch reference runs; it is "
+        "consumer, flow of different / of equal values, container as built / deep copy next to its "
+        "template) executed on a fresh Split/Zip plus the cached single-branch reference runs; it is "
         "non-trivial when there are >= 2 branches, the flow is not empty and at least one branch, run "
         "alone, really changed its input values in place (measured by comparing the flow before and "
         "after). Part B: one evaluation = one event history (last event judged) on a fresh accumulator "
@@ -38,7 +44,14 @@ RULE = ("Part A: one evaluation = one (container, drive mode, ordered branch lis
         "(address-free) forms of the real element's attributes reached, transitions = judged final "
         "events, traces = histories compared with the twin. Cases are distinct by construction")
 ASSUMPTIONS = [
-    "flows have no pre-existing aliasing: every value has its own list data and its own nested context",
+    "flows have no pre-existing aliasing: every value has its own list data and its own nested context "
+    "(also in the flows whose values are all equal)",
+    "deep copy: the container is copied once, before it has seen a value, together with its observers; "
+    "template and copy get equal fresh flows and take turns value by value (run: one result each in "
+    "turn; fill: template first; results: copy first); a branch list is judged as a deep copy only when "
+    "each of its branches can be deep-copied as the only branch of such a container (UpdateContext with a "
+    "format string keeps a compiled jinja2 Template, which copy.deepcopy refuses with a TypeError on the "
+    "unchanged tree: the mutator 'upd' is outside this dimension)",
     "branch elements: a user callable editing data and context in place, Variable (typed), "
     "UpdateContext (format string reading the key it writes; context value copy), MakeFilename (prefix; "
     "filename consuming the prefix), Count (as run / fill_into element); terminals: none (Sequence "
@@ -69,26 +82,39 @@ BUDGET_S = {"quick": 240, "thorough": 1500}
 # bounds
 
 def _dom(tier):
+    """same2 / same3: flow lengths for which 2- / 3-branch lists are also run over a flow of EQUAL values;
+    copy2 / copy3: (flow length, hostile consumer) for which they are also run as a deep copy next to
+    its template."""
     if tier == "thorough":
         return dict(pre2=L.PRE_TOKENS, terms2=L.TERM_TOKENS, pairs_of_mutators=True, nmax2=3,
-                    pre3=L.PRE_TOKENS, terms3=L.TERM_TOKENS, nmax3=3, bufs3=None, hist=7)
+                    pre3=L.PRE_TOKENS, terms3=L.TERM_TOKENS, nmax3=3, bufs3=None, hist=7,
+                    same2=(2, 3), same3=(2, 3),
+                    copy2=tuple((n, h) for n in (1, 2, 3) for h in (False, True)),
+                    copy3=((2, False),))
     return dict(pre2=L.PRE_TOKENS[:7] + ("usrsl",), terms2=L.TERM_TOKENS[:4], pairs_of_mutators=False, nmax2=3,
                 pre3=("none", "usr", "upd", "mkf", "cnt", "usrsl"), terms3=L.TERM_TOKENS[:4], nmax3=2,
-                bufs3=(1, 2, None), hist=5)
+                bufs3=(1, 2, None), hist=5,
+                same2=(2, 3), same3=(), copy2=((1, False), (2, False), (2, True)), copy3=())
 
 
 def describe(tier):
     d = _dom(tier)
+    def copies(c):
+        return ", ".join("%d (%s consumer)" % (n, "hostile" if h else "plain") for n, h in c) or "none"
+
     return ("Part A: branch = mutator(s) + terminal. 2-branch lists: one mutator of %s%s, terminal of %s, "
             "flows 0..%d, bufsize in {1, 2, n+1, 1000, None}. 3-branch lists: one mutator of %s, terminal "
             "of %s, flows 0..%d, bufsize in %s. All ordered lists; Split by run / fill+compute / "
             "fill+request (request at the end, after every fill), Zip by fill+compute / fill+request; "
-            "plain and hostile consumer. Part B: accumulators %s x wrappers %s, all histories over "
+            "plain and hostile consumer. Also over flows of equal values: 2-branch lists for flow lengths "
+            "%s, 3-branch lists for %s; also as a deep copy next to its template: 2-branch lists for flow "
+            "lengths %s, 3-branch lists for %s. Part B: accumulators %s x wrappers %s, all histories over "
             "fill/compute/poison of length <= %d"
             % (list(d["pre2"]), " or an ordered pair of two different mutators"
                if d["pairs_of_mutators"] else "", list(d["terms2"]), d["nmax2"], list(d["pre3"]),
                list(d["terms3"]), d["nmax3"],
                "{1, 2, n+1, 1000, None}" if d["bufs3"] is None else list(d["bufs3"]),
+               list(d["same2"]), list(d["same3"]) or "none", copies(d["copy2"]), copies(d["copy3"]),
                list(L.ACCS), list(L.WRAPS), d["hist"]))
 
 
@@ -125,8 +151,10 @@ def shards(tier):
     k2 = _kinds2(tier)
     k3 = _kinds3(tier)
     # 2-branch lists: one shard per first branch (all containers and modes)
+    # (two halves: second branches of even / of odd index)
     for i in range(len(k2)):
-        out.append({"part": "A", "n_branches": 2, "first": i})
+        for half in (0, 1):
+            out.append({"part": "A", "n_branches": 2, "first": i, "half": half})
     # 3-branch lists: one shard per (first branch, second branch's terminal)
     for i in range(len(k3)):
         for t in _dom(tier)["terms3"]:
@@ -140,12 +168,12 @@ def shards(tier):
 _ALONE = {}
 
 
-def _alone(container, kind, bufsize, n, mode, hostile):
+def _alone(container, kind, bufsize, n, mode, hostile, flow="distinct"):
     """The branch as the only member of the container (cached: construction is deterministic)."""
-    key = (container, tuple(kind), bufsize, n, mode, hostile)
+    key = (container, tuple(kind), bufsize, n, mode, hostile, flow)
     o = _ALONE.get(key)
     if o is None:
-        o = L.drive(container, [kind], bufsize, n, mode, hostile, want_mutated=True)
+        o = L.drive(container, [kind], bufsize, n, mode, hostile, want_mutated=True, flow=flow)
         o.objs = None
         o.received = None
         _ALONE[key] = o
@@ -155,64 +183,106 @@ def _alone(container, kind, bufsize, n, mode, hostile):
 _NEUTRAL = {}
 
 
-def _neutral_others(container, kinds, i, bufsize, n, mode, hostile):
+def _neutral_others(container, kinds, i, bufsize, n, mode, hostile, flow="distinct"):
     """Branch i among the *same terminals* with all other branches' mutators removed: the reference
     for Zip, whose output rounds (and so how far each branch's generator is advanced) depend on the
     other branches' terminals, which is a matter of schedule and not of interference."""
     neutral = [list(k) if j == i else ["none", k[-1]] for j, k in enumerate(kinds)]
-    key = (container, i, tuple(tuple(k) for k in neutral), bufsize, n, mode, hostile)
+    key = (container, i, tuple(tuple(k) for k in neutral), bufsize, n, mode, hostile, flow)
     o = _NEUTRAL.get(key)
     if o is None:
-        o = L.drive(container, neutral, bufsize, n, mode, hostile)
+        o = L.drive(container, neutral, bufsize, n, mode, hostile, flow=flow)
         o.objs = None
         o.received = None
         _NEUTRAL[key] = o
     return o
 
 
-def _references(container, kinds, bufsize, n, mode, hostile):
-    """-> list of (exception or None, expected tap log) per branch."""
+def _references(container, kinds, bufsize, n, mode, hostile, flow="distinct"):
+    """-> list of (exception or None, expected tap log, expected alias pattern) per branch: always
+    from a container built for the purpose, never from a copy."""
     out = []
     for i, k in enumerate(kinds):
         if container == "split":
-            o = _alone(container, k, bufsize, n, mode, hostile)
-            out.append((o.exc or o.construct_exc, o.taps[0] if o.taps else None))
+            o = _alone(container, k, bufsize, n, mode, hostile, flow)
+            j = 0
         else:
-            o = _neutral_others(container, kinds, i, bufsize, n, mode, hostile)
-            out.append((o.exc or o.construct_exc, o.taps[i] if o.taps else None))
+            o = _neutral_others(container, kinds, i, bufsize, n, mode, hostile, flow)
+            j = i
+        out.append((o.exc or o.construct_exc, o.taps[j] if o.taps else None,
+                    o.alias[j] if o.taps else None))
     return out
 
 
-def _judge_a_once(container, kinds, bufsize, n, mode, hostile):
+_COPYABLE = {}
+
+
+def _copyable_alone(container, kind, bufsize):
+    """Can a container holding only this branch be deep-copied? (UpdateContext with a format string
+    keeps a compiled jinja2 Template and cannot; that is not a matter of interference.)"""
+    key = (container, tuple(kind), bufsize is None)
+    r = _COPYABLE.get(key)
+    if r is None:
+        o = L.drive(container, [kind], bufsize, 0, "run" if container == "split" else
+                    {"fill_compute": "fill_compute"}.get(L.TERM_TYPE[kind[-1]], "fill_request_end"),
+                    False, origin="copy")
+        r = _COPYABLE[key] = not (o.construct_exc or o.exc)
+    return r
+
+
+def _branch_laws(problems, who, kinds, taps, objs, refs, alias=None):
+    """The laws of one driven container: every branch against its reference, and no sharing between
+    branches. *who* = "" or "template:" (prefix of the law names)."""
+    for i in range(len(kinds)):
+        if taps[i] != refs[i][1]:
+            problems.append((who + "branch-output-differs-from-alone", i, taps[i], refs[i][1]))
+        else:
+            al = alias[i] if alias is not None else L.alias_pattern(objs[i])
+            if al != refs[i][2]:
+                problems.append((who + "branch-values-alias-each-other", i,
+                                 "pairs of values of the branch that have a dict/list/object in common: "
+                                 "%s" % (list(al),), "as when alone: %s" % (list(refs[i][2]),)))
+    ids = [set(L.container_ids(tuple(o))) for o in objs]
+    for i in range(len(kinds)):
+        for j in range(i + 1, len(kinds)):
+            s = len(ids[i] & ids[j])
+            if s:
+                problems.append((who + "branches-share-container", (i, j),
+                                 "%d dict/list object(s) reachable from the outputs of branch %d "
+                                 "and of branch %d" % (s, i, j), "none"))
+    return ids
+
+
+def _judge_a_once(container, kinds, bufsize, n, mode, hostile, flow="distinct", origin="fresh"):
     """-> (status, problems, outcome digest source). problems: list of (law, index, observed, expected)."""
-    o = L.drive(container, kinds, bufsize, n, mode, hostile)
+    o = L.drive(container, kinds, bufsize, n, mode, hostile, flow=flow, origin=origin)
     if o.construct_exc:
         return "construct_raised", [], ("construct", o.construct_exc)
-    refs = _references(container, kinds, bufsize, n, mode, hostile)
-    if any(e for e, _ in refs):
+    refs = _references(container, kinds, bufsize, n, mode, hostile, flow)
+    if any(r[0] for r in refs):
         return "branch_raises_alone", [], ("alone-raises",)
+    if origin == "copy" and not all(_copyable_alone(container, k, bufsize) for k in kinds):
+        return "branch_not_copyable_alone", [], ("alone-not-copyable",)
     problems = []
     if o.exc:
-        problems.append(("raises-only-with-other-branches", None, "raised " + o.exc, "no exception"))
+        problems.append(("raises-only-with-other-branches" if origin == "fresh" else
+                         "raises-only-next-to-its-deep-copy", None, "raised " + o.exc, "no exception"))
     else:
-        for i in range(len(kinds)):
-            if o.taps[i] != refs[i][1]:
-                problems.append(("branch-output-differs-from-alone", i, o.taps[i], refs[i][1]))
-        ids = [set(L.container_ids(tuple(objs))) for objs in o.objs]
-        for i in range(len(kinds)):
-            for j in range(i + 1, len(kinds)):
-                s = len(ids[i] & ids[j])
-                if s:
-                    problems.append(("branches-share-container", (i, j),
-                                     "%d dict/list object(s) reachable from the outputs of branch %d "
-                                     "and of branch %d" % (s, i, j), "none"))
-    return "judged", problems, o.taps
+        ids = _branch_laws(problems, "", kinds, o.taps, o.objs, refs, o.alias)
+        if o.taps_t is not None:
+            ids_t = _branch_laws(problems, "template:", kinds, o.taps_t, o.objs_t, refs)
+            s = len(set().union(*ids) & set().union(*ids_t)) if ids else 0
+            if s:
+                problems.append(("copy-shares-container-with-template", None,
+                                 "%d dict/list object(s) reachable both from the outputs of the "
+                                 "template and from those of its deep copy" % s, "none"))
+    return "judged", problems, (o.taps, o.taps_t) if o.taps_t is not None else o.taps
 
 
-def check_a(res, container, kinds, bufsize, n, mode, hostile):
+def check_a(res, container, kinds, bufsize, n, mode, hostile, flow="distinct", origin="fresh"):
     case = {"part": "A", "container": container, "mode": mode, "kinds": kinds, "bufsize": bufsize,
-            "n": n, "hostile": hostile}
-    status, problems, osrc = _judge_a_once(container, kinds, bufsize, n, mode, hostile)
+            "n": n, "hostile": hostile, "flow": flow, "origin": origin}
+    status, problems, osrc = _judge_a_once(container, kinds, bufsize, n, mode, hostile, flow, origin)
     if status != "judged":
         res.count("A_" + status)
         res.case(nontrivial=False, outcome=osrc)
@@ -220,7 +290,7 @@ def check_a(res, container, kinds, bufsize, n, mode, hostile):
     mutators = 0
     if n > 0:
         for k in kinds:
-            if _alone("split", k, bufsize, n, mode, False).mutated_input:
+            if _alone("split", k, bufsize, n, mode, False, flow).mutated_input:
                 mutators += 1
     nontrivial = len(kinds) >= 2 and n > 0 and mutators >= 1
     res.case(nontrivial=nontrivial, outcome=osrc)
@@ -228,57 +298,90 @@ def check_a(res, container, kinds, bufsize, n, mode, hostile):
     res.count("A_%s_%s" % (container, mode))
     if hostile:
         res.count("A_hostile_consumer")
+    if flow != "distinct":
+        res.count("A_flow_of_equal_values")
+    if origin != "fresh":
+        res.count("A_deep_copy_next_to_its_template")
+    plain = {}
+
+    def law_without(**changed):
+        """Is the law also broken when one dimension of the case is put back to its simplest value?"""
+        args = dict(hostile=hostile, flow=flow, origin=origin)
+        args.update(changed)
+        key = tuple(sorted(args.items()))
+        if key not in plain:
+            _, pr, _ = _judge_a_once(container, kinds, bufsize, n, mode, args["hostile"], args["flow"],
+                                     args["origin"])
+            plain[key] = set(p[0] for p in pr)
+        return plain[key]
+
     for law, where, observed, expected in problems:
         cause = {"part": "A", "law": law, "container": container,
                  "drive": "run" if mode == "run" else "fill"}
-        if law == "branch-output-differs-from-alone":
+        if law.endswith("branch-output-differs-from-alone") or law.endswith("branch-values-alias-each-other"):
             cause["victim"] = "last-branch" if where == len(kinds) - 1 else "earlier-branch"
             cause["victim_type"] = L.TERM_TYPE[kinds[where][-1]]
-        if hostile:
-            # is the hostile consumer needed to see it?
-            st2, pr2, _ = _judge_a_once(container, kinds, bufsize, n, mode, False)
-            cause["needs_hostile_consumer"] = not any(p[0] == law for p in pr2)
-        else:
-            cause["needs_hostile_consumer"] = False
+        # which of the non-default dimensions are needed to see it?
+        cause["needs_hostile_consumer"] = bool(hostile) and law not in law_without(hostile=False)
+        if flow != "distinct":
+            cause["needs_equal_values"] = law not in law_without(flow="distinct")
+        if origin != "fresh":
+            # (laws about the template or the pair cannot show without the copy)
+            cause["needs_deep_copy"] = law not in law_without(origin="fresh")
         res.violation(case, {"branch": where, "got": observed}, {"reference": expected}, cause,
-                      note="kinds are [mutators..., terminal] per branch; see mc/ref/c04_lib.py")
+                      note="kinds are [mutators..., terminal] per branch; flow 'same' = all values equal, "
+                           "each made of its own objects; origin 'copy' = the container is a deep copy, "
+                           "made before any value, of a template that is driven next to it over an equal "
+                           "flow (laws 'template:...' speak of the template); see mc/ref/c04_lib.py")
     return case
 
 
+def _variants(d, two, n, hostile):
+    """The (flow, origin) pairs of one (branch list, n, consumer): the plain one first."""
+    out = [("distinct", "fresh")]
+    if n in d["same2" if two else "same3"]:
+        out.append(("same", "fresh"))
+    if (n, hostile) in d["copy2" if two else "copy3"]:
+        out.append(("distinct", "copy"))
+    return out
+
+
 def _iter_a_cases(tier, kinds_lists):
-    """All (container, mode, bufsize, n, hostile) for each branch list, simplest first."""
+    """All (container, mode, bufsize, n, hostile, flow, origin) for each branch list, simplest first."""
     d = _dom(tier)
     for kinds in kinds_lists:
-        nmax = d["nmax2"] if len(kinds) == 2 else d["nmax3"]
-        allowed = None if len(kinds) == 2 else d["bufs3"]
+        two = len(kinds) == 2
+        nmax = d["nmax2"] if two else d["nmax3"]
+        allowed = None if two else d["bufs3"]
         for n in range(nmax + 1):
             for hostile in (False, True):
-                for bufsize in _bufsizes(n, allowed):
-                    yield ("split", "run", kinds, bufsize, n, hostile)
-                for mode in L.MODES[1:]:
-                    if n == 0 and mode == "fill_request_each":
-                        continue        # identical to fill_request_end for an empty flow
-                    if L.mode_applicable("split", mode, kinds):
-                        yield ("split", mode, kinds, 1000, n, hostile)
-                    if L.mode_applicable("zip", mode, kinds):
-                        yield ("zip", mode, kinds, 1000, n, hostile)
-                        if n > 0 and any("usr" in k for k in kinds):
-                            # the same with data that are user objects (mutable, and hashable like any
-                            # object): only a branch that edits the data can tell
-                            yield ("zip-obj", mode, kinds, 1000, n, hostile)
+                for flow, origin in _variants(d, two, n, hostile):
+                    for bufsize in _bufsizes(n, allowed):
+                        yield ("split", "run", kinds, bufsize, n, hostile, flow, origin)
+                    for mode in L.MODES[1:]:
+                        if n == 0 and mode == "fill_request_each":
+                            continue        # identical to fill_request_end for an empty flow
+                        if L.mode_applicable("split", mode, kinds):
+                            yield ("split", mode, kinds, 1000, n, hostile, flow, origin)
+                        if L.mode_applicable("zip", mode, kinds):
+                            yield ("zip", mode, kinds, 1000, n, hostile, flow, origin)
+                            if n > 0 and any("usr" in k for k in kinds):
+                                # the same with data that are user objects (mutable, and hashable like
+                                # any object): only a branch that edits the data can tell
+                                yield ("zip-obj", mode, kinds, 1000, n, hostile, flow, origin)
 
 
 def run_a(res, p, tier):
     if p["n_branches"] == 2:
         k2 = _kinds2(tier)
-        lists = [[k2[p["first"]], b] for b in k2]
+        lists = [[k2[p["first"]], b] for j, b in enumerate(k2) if j % 2 == p["half"]]
     else:
         k3 = _kinds3(tier)
         seconds = [k for k in k3 if k[-1] == p["second_term"]]
         lists = [[k3[p["first"]], b, c] for b in seconds for c in k3]
     last = None
-    for container, mode, kinds, bufsize, n, hostile in _iter_a_cases(tier, lists):
-        last = check_a(res, container, kinds, bufsize, n, mode, hostile)
+    for container, mode, kinds, bufsize, n, hostile, flow, origin in _iter_a_cases(tier, lists):
+        last = check_a(res, container, kinds, bufsize, n, mode, hostile, flow, origin)
         if hostile and n == 2 and bufsize == 2:
             res.sample(last, 3)
     if last is not None:
@@ -479,7 +582,7 @@ def replay(case):
         check_b(res, case["acc"], case["wrap"], case["history"], set())
     else:
         check_a(res, case["container"], [list(k) for k in case["kinds"]], case["bufsize"], case["n"],
-                case["mode"], case["hostile"])
+                case["mode"], case["hostile"], case.get("flow", "distinct"), case.get("origin", "fresh"))
     return result_violations(res)
 
 
@@ -487,8 +590,9 @@ LEVEL_TEXT = ("explicit-state exploration of the real accumulators: every histor
               "value, compute/request, edit in place everything yielded so far} up to length 5 (thorough: "
               "7) on 11 accumulator configurations x 6 wrappers, with an id-graph invariant and an "
               "un-poisoned twin; plus bounded exhaustive enumeration of all ordered lists of 2..3 "
-              "mutating branches x bufsize x flow length x drive mode x consumer for Split and Zip, each "
-              "branch compared with the same branch alone")
+              "mutating branches x bufsize x flow length x drive mode x consumer for Split and Zip (also "
+              "over flows of equal values and for a deep copy driven next to its template), each branch "
+              "compared with the same branch alone")
 LEVEL_NOTE = ("holds for the enumerated alphabet and bounds only; 'alone' keeps the container's block "
               "schedule (C03 owns the schedule); only contexts are judged for accumulators; "
               "NumpyHistogram (needs numpy), StoreFilled and GroupBy are outside the alphabet")
